@@ -68,6 +68,55 @@ fn no_panic(c: &mut Ctx, op: &'static str, ins: &[u64], f: impl FnOnce() -> W) -
     }
 }
 
+
+/// Deterministic linear grids (with sub-step jitter and a random low word) over [c-hw, c+hw]:
+/// mis-placed range switches and saturation thresholds are narrow bands in linear scale.
+fn emit_grid(e: &mut Emit, funcs: &[(&str, fn(TwoFloat) -> TwoFloat)], grids: &[(f64, f64)], keep: fn(W) -> bool) {
+    let npts: i64 = if e.tier == 0 { 1 << 11 } else { 1 << 17 };
+    for (gi, &(center, hw)) in grids.iter().enumerate() {
+        let stepw = 2.0 * hw / npts as f64;
+        for k in 0..npts {
+            if (k as u64 + gi as u64) % e.nshards != e.shard {
+                continue;
+            }
+            let jitter = (e.rng.next() >> 11) as f64 * pow2(-53);
+            let hi = center - hw + (k as f64 + jitter) * stepw;
+            let (h, l, _) = tf_with_hi(&mut e.rng, hi);
+            let a = (h, l);
+            if !valid_ref(a.0, a.1) || !keep(a) {
+                continue;
+            }
+            for (name, f) in funcs {
+                let f = *f;
+                e.ev(name, &tf1(a), || v2(f(t(a))));
+            }
+        }
+    }
+}
+
+/// "Special" high words (small integers, halves, powers of two, 1 +- ulp) carrying a non-zero low
+/// word: fast paths that look at the high word only are wrong exactly here.
+fn special_hi(r: &mut Rng) -> W {
+    let hi = match r.below(6) {
+        0 => r.range(-40, 40) as f64,
+        1 => r.range(-80, 80) as f64 * 0.5,
+        2 => pow2(r.range(-40, 40)) * if r.coin() { 1.0 } else { -1.0 },
+        3 => 1.0,
+        4 => r.range(-1200, 1200) as f64 / 128.0,
+        _ => r.range(-900, 900) as f64,
+    };
+    if hi == 0.0 {
+        return (1.0, pow2(-60));
+    }
+    let cls = pk!(r, [2u64, 3, 4, 8, 8, 9, 11]);
+    let lo = lo_class(r, hi, cls);
+    if lo != 0.0 && valid_ref(hi, lo) {
+        (hi, lo)
+    } else {
+        (hi, pow2((ulp_exp(hi) - 8).max(-1074)))
+    }
+}
+
 // ------------------------------------------------------------------------------------------
 // C12: constants
 // ------------------------------------------------------------------------------------------
@@ -407,6 +456,15 @@ fn exp_args(e: &mut Emit, i: u64) -> W {
 }
 
 pub fn emit_c14(e: &mut Emit) {
+    emit_grid(e, &[("exp", |x| x.exp()), ("exp_m1", |x| x.exp_m1()), ("exp2", |x| x.exp2())], &[(0.0, 1.0), (0.0, 40.0), (50.0, 650.0)], |_| true);
+    for _ in 0..e.budget(40_000, 2_000_000) {
+        let a = special_hi(&mut e.rng);
+        e.ev("exp", &tf1(a), || v2(t(a).exp()));
+        e.ev("exp2", &tf1(a), || v2(t(a).exp2()));
+        e.ev("exp_m1", &tf1(a), || v2(t(a).exp_m1()));
+        let b = special_hi(&mut e.rng);
+        e.ev("powf", &[hx(a.0), hx(a.1), hx(b.0), hx(b.1)], || v2(t(a).powf(t(b))));
+    }
     let n = e.budget(1_200_000, 100_000_000) / 4;
     // systematic walk over all table entries first (every (sign, a, b) and every n)
     let mut idx = 0u64;
@@ -581,6 +639,16 @@ pub fn c15(c: &mut Ctx) {
 }
 
 pub fn emit_c15(e: &mut Emit) {
+    emit_grid(e, &[("ln", |x| x.ln()), ("log2", |x| x.log2()), ("log10", |x| x.log10()), ("ln_1p", |x| x.ln_1p())], &[(1.0, 0.999), (20.0, 19.0), (500.0, 499.0)], |a| a.0 > 0.0);
+    emit_grid(e, &[("ln_1p", |x| x.ln_1p())], &[(0.0, 0.999)], |a| a.0 > -1.0);
+    for _ in 0..e.budget(40_000, 2_000_000) {
+        let a = special_hi(&mut e.rng);
+        let a = (a.0.abs(), if a.0 < 0.0 { -a.1 } else { a.1 });
+        e.ev("ln", &tf1(a), || v2(t(a).ln()));
+        e.ev("log2", &tf1(a), || v2(t(a).log2()));
+        e.ev("log10", &tf1(a), || v2(t(a).log10()));
+        e.ev("ln_1p", &tf1(a), || v2(t(a).ln_1p()));
+    }
     let n = e.budget(1_000_000, 100_000_000) / 4;
     for i in 0..n {
         let x = match i % 8 {
@@ -761,6 +829,13 @@ pub fn c16(c: &mut Ctx) {
 }
 
 pub fn emit_c16(e: &mut Emit) {
+    emit_grid(e, &[("sin", |x| x.sin()), ("cos", |x| x.cos()), ("tan", |x| x.tan())], &[(0.0, 1.0), (0.0, 40.0), (0.0, 3000.0)], |_| true);
+    for _ in 0..e.budget(40_000, 2_000_000) {
+        let a = special_hi(&mut e.rng);
+        e.ev("sin", &tf1(a), || v2(t(a).sin()));
+        e.ev("cos", &tf1(a), || v2(t(a).cos()));
+        e.ev("tan", &tf1(a), || v2(t(a).tan()));
+    }
     let n = e.budget(1_000_000, 100_000_000) / 3;
     // every k up to 2^14 at least once in the thorough tier, strided in quick
     let stride = if e.tier == 0 { 16 } else { 1 };
@@ -854,6 +929,26 @@ pub fn c17(c: &mut Ctx) {
 }
 
 pub fn emit_c17(e: &mut Emit) {
+    emit_grid(e, &[("asin", |x| x.asin()), ("acos", |x| x.acos())], &[(0.0, 0.9999)], |_| true);
+    emit_grid(e, &[("atan", |x| x.atan())], &[(0.0, 1.0), (0.0, 4.0), (0.0, 100.0)], |_| true);
+    for _ in 0..e.budget(40_000, 2_000_000) {
+        let a = special_hi(&mut e.rng);
+        e.ev("atan", &tf1(a), || v2(t(a).atan()));
+        if a.0.abs() < 1.0 || (a.0.abs() == 1.0 && a.1 * a.0 <= 0.0) {
+            e.ev("asin", &tf1(a), || v2(t(a).asin()));
+            e.ev("acos", &tf1(a), || v2(t(a).acos()));
+        }
+        // atan2 with operands sharing the high word or with special high words
+        let b = match e.rng.below(3) {
+            0 => {
+                let sg = e.rng.coin();
+                let (h, l, _) = tf_with_hi(&mut e.rng, if sg { a.0 } else { -a.0 });
+                (h, l)
+            }
+            _ => special_hi(&mut e.rng),
+        };
+        e.ev("atan2", &[hx(a.0), hx(a.1), hx(b.0), hx(b.1)], || v2(t(a).atan2(t(b))));
+    }
     let n = e.budget(1_000_000, 100_000_000) / 5;
     for i in 0..n {
         // asin / acos on [-1, 1]
@@ -979,6 +1074,18 @@ pub fn c18(c: &mut Ctx) {
 }
 
 pub fn emit_c18(e: &mut Emit) {
+    emit_grid(e, &[("sinh", |x| x.sinh()), ("cosh", |x| x.cosh()), ("tanh", |x| x.tanh()), ("asinh", |x| x.asinh())], &[(0.0, 1.0), (0.0, 40.0), (0.0, 600.0)], |_| true);
+    emit_grid(e, &[("atanh", |x| x.atanh())], &[(0.0, 0.999)], |_| true);
+    emit_grid(e, &[("acosh", |x| x.acosh())], &[(2.0, 0.9999), (50.0, 48.0)], |a| a.0 > 1.0);
+    for _ in 0..e.budget(40_000, 2_000_000) {
+        let a = special_hi(&mut e.rng);
+        e.ev("sinh", &tf1(a), || v2(t(a).sinh()));
+        e.ev("cosh", &tf1(a), || v2(t(a).cosh()));
+        e.ev("tanh", &tf1(a), || v2(t(a).tanh()));
+        e.ev("asinh", &tf1(a), || v2(t(a).asinh()));
+        e.ev("acosh", &tf1(a), || v2(t(a).acosh()));
+        e.ev("atanh", &tf1(a), || v2(t(a).atanh()));
+    }
     let n = e.budget(1_000_000, 100_000_000) / 6;
     for i in 0..n {
         // direct functions: |x| <= 600, log-uniform from 2^-40, plus the exp-table stratification
